@@ -335,7 +335,28 @@ pub fn run(ctx: &Ctx) -> i32 {
             ctx.violation("from_value:collection-pattern-rejected", "a model without some top-level collections does not load", json!({"part": "collections", "removed_mask": mask}));
         }
     });
-    for a in accs.iter().chain(accs2.iter()).chain(accs3.iter()) {
+    // presence patterns inside the nested databases (each has its own hand-written is_empty): cons (5 lists),
+    // schedules (3), overrides (2), with the rest of the model present or absent
+    let mut acc4 = Acc::default();
+    for (key, subs) in [("cons", vec!["wallcons", "wincons", "materials", "glasses", "frames"]), ("schedules", vec!["year", "week", "day"]), ("overrides", vec!["walls", "windows"])] {
+        for mask in 0..(1u32 << subs.len()) {
+            for rest in 0..2 {
+                let mut d = if rest == 0 { full.clone() } else { json!({"meta": full["meta"].clone(), key: full[key].clone()}) };
+                for (b, sname) in subs.iter().enumerate() {
+                    if mask & (1 << b) != 0 {
+                        d[key].as_object_mut().unwrap().remove(*sname);
+                    }
+                }
+                acc4.n += 1;
+                if let Some(o) = roundtrip(ctx, &d, &|| json!({"part": "nested-collections", "database": key, "removed_mask": mask, "rest_of_model_present": rest == 0, "doc": d})) {
+                    acc4.loaded += 1;
+                    acc4.outcomes.insert(o);
+                }
+            }
+        }
+    }
+    let accs4 = vec![acc4];
+    for a in accs.iter().chain(accs2.iter()).chain(accs3.iter()).chain(accs4.iter()) {
         ctx.eval(a.n);
         loaded += a.loaded;
         ctx.outcome_merge(&a.outcomes);
@@ -431,7 +452,7 @@ pub fn run(ctx: &Ctx) -> i32 {
     ctx.nontriv(loaded);
     ctx.finish(
         "model_checking",
-        "JSON-level substitutions on a model whose every field is present and non-default (2 elements per collection, both MatProps variants, all options Some): every leaf x its type alphabet (numbers{0,0.0,1,1.0,0.1234567,-3.5e-7,1e30,0.7,0.2,3.0,50.0}, bools, strings{empty, quotes/UTF-8/escapes, every enum variant name}, ids->nil, key removed, null, arrays emptied / cut to one) singly, all ordered pairs of such substitutions on the one-element-per-collection model (every 7th pair in quick), all 2^11 x 3 patterns of absent top-level collections x extra{None,[],[x]}; oracle on every document that loads as a Model: from_json(as_json(m)) is Debug-identical to m and serialises to the identical text; f32 number-leaf sweep (all finite bit patterns in thorough, every 4099th in quick) through a plain field and the flatten+untagged Material path; 7 shipped files value-equal after load+save; converted corpus; non-trivial = document loads as a model",
+        "JSON-level substitutions on a model whose every field is present and non-default (2 elements per collection, both MatProps variants, all options Some): every leaf x its type alphabet (numbers{0,0.0,1,1.0,0.1234567,-3.5e-7,1e30,0.7,0.2,3.0,50.0}, bools, strings{empty, quotes/UTF-8/escapes, every enum variant name}, ids->nil, key removed, null, arrays emptied / cut to one) singly, all ordered pairs of such substitutions on the one-element-per-collection model (every 7th pair in quick), all 2^11 x 3 patterns of absent top-level collections x extra{None,[],[x]}, all presence patterns of the lists inside cons (2^5), schedules (2^3) and overrides (2^2) with and without the rest of the model; oracle on every document that loads as a Model: from_json(as_json(m)) is Debug-identical to m and serialises to the identical text; f32 number-leaf sweep (all finite bit patterns in thorough, every 4099th in quick) through a plain field and the flatten+untagged Material path; 7 shipped files value-equal after load+save; converted corpus; non-trivial = document loads as a model",
         stride == 1,
         json!({}),
     )
